@@ -146,6 +146,8 @@ def check_extras_refs(case, res, count=True):
     att = Attacker(name='a', entry_points=[], reached_attack_steps=[])
     g.add_attacker(att)
     att.compromise(objs[0])
+    for o in rng.sample(objs, min(len(objs), rng.randint(1, 4))):
+        att.compromise(o)
     shared = {'asset-record': {'owner': 'x', 'l': [1, 2]}}
     for n in objs:
         r = rng.random()
@@ -155,6 +157,9 @@ def check_extras_refs(case, res, count=True):
             n.extras = {'path': [rng.choice(objs) for _ in range(3)], 'by': att}
         elif r < 0.7:
             n.extras = shared
+    if rng.random() < 0.5:
+        for n in att.reached_attack_steps:
+            n.extras = {'taken_by': att}                              # every reached step remembers its attacker
     try:
         c = copy.deepcopy(g)
     except Exception as exc:
